@@ -5,26 +5,36 @@ from vcheck import Case, hx, tokf, parse_vals, compare_lines
 PID = "C13"
 RULE = ("non-trivial = a nested 2-D/3-D/spherical case whose limit pairs are pairwise distinct (disjoint intervals per axis, so that a swapped "
         "argument or a swapped pair of limits is visible) with an integrand that is not symmetric under exchange of its arguments, or a 1-D case "
-        "with reversed or equal limits, an explicit method_parameter or an unknown method name; distinct by case text")
+        "with reversed or equal limits, an explicit method_parameter, an unknown method name or a user function that is itself defined through an integral "
+        "(re-entrant call of the library); distinct by case text")
 LEVEL_TEXT = ("Theorems (Coq, all inputs, over the reals): the dispatch of Integrate(func,a,b,method,parameter) — each of the six names selects its back end "
               "with the stated parameter default (Gauss-Kronrod depth 5, Gauss-Legendre_2 30 points), every other name terminates when the limits differ, equal "
               "limits give 0 without a call of any back end or of the integrand, reversed limits negate the result; if the selected back end is exact on the "
               "integrands that occur (explicit premise), Integrate = RInt for every orientation, Integrate_2D/3D equal the iterated integral in which each argument "
               "position carries the variable of its own limit pair, separable integrands give the product of the 1-D integrals, the Monte-Carlo branch builds the region "
               "{x1,y1,(z1),x2,y2,(z2)} with 30000 default calls, and the spherical overload passes a vector of norm |r| with cos(polar angle) = cos_theta and azimuth phi, "
-              "multiplies by r^2 and integrates f(|r|) to (c2-c1)(phi2-phi1) * RInt r^2 f, i.e. 4 pi * RInt r^2 f on the full sphere. "
+              "multiplies by r^2 and integrates f(|r|) to (c2-c1)(phi2-phi1) * RInt r^2 f, i.e. 4 pi * RInt r^2 f on the full sphere; an integrand that is itself defined "
+              "through an integral (Integrate re-entered from inside its integrand with any method name and parameter at either level; the model has no state) integrates to the "
+              "integral of x |-> outer(x, RInt inner(x,.)) under the same premise at both levels. "
               "NOT theorems: the 1e-9 / 1e-6 accuracies of the four boost quadratures (external code) and of libphysica's own Gauss-Legendre and adaptive Simpson rules on smooth "
               "integrands — these are checked on the implementation against closed-form integrals (S4) on every run; the Gallina model (the extracted term, with the library's own two "
               "back ends modelled line by line and the boost quadratures replaced by a stand-in rule) is compared with the C++ on every case: bit for bit for the own back ends, "
-              "at the method's accuracy for boost.")
+              "at the method's accuracy for boost. Also on the implementation only (S4): every front end equals, bit for bit, the back end of the method name called directly and nested "
+              "level by level by the harness with the same method_parameter; the fixed rules evaluate n points per level; limits of different axes that coincide; nearly equal limits; "
+              "re-entrant user functions. Known finding K-C13-1: Tanh-Sinh on intervals narrow relative to their position.")
 LEVEL_NOTE = ("Coq 8.16.1 kernel; theorems over R use the standard library's real-number axioms and Coquelicot's RInt (axioms listed in the evidence); premises carried by the theorems: "
               "exactness of the selected 1-D back end on the integrands that occur, continuity/integrability of the integrand; boost::math::quadrature (trapezoidal, gauss<30>, "
               "gauss_kronrod<31>, tanh_sinh) is external code modelled as a Section variable; hand-written model tied by differential correspondence (extraction with ExtrOcamlBasic only)")
 TOL = (1e-12, 0.0)
+ALLOW_CRASH = True          # a crash is reported by predicates() below (same message), with a signature that separates the known abort K-C13-1 from any other
 TRUSTED = ["boost::math::quadrature back ends are a Section variable of the model (instantiated by a 2-panel 30-point Gauss-Legendre stand-in in the OCaml driver)",
            "closed-form antiderivatives used by the S4 predicates (checks/C13.py) evaluated with Python's math library"]
 ASSUMPTIONS = ["accuracy clauses (1e-9 relative; 1e-6 Trapezoidal) are decided on the implementation against closed-form integrals for the generated smooth families, with slack dim*accuracy*L1-norm of the integrand; they are not theorems",
-               "'smooth' is instantiated as: damped oscillations exp(-a v)cos(w v) with at most two periods on the interval, 1/(1+k v^2) with k<=2, Gaussians exp(-k (v-mu)^2) with k<=4, polynomials of degree <= 3, on intervals of width 0.5..1.5"]
+               "'smooth' is instantiated as: damped oscillations exp(-a v)cos(w v) with at most two periods on the interval, 1/(1+k v^2) with k<=2, Gaussians exp(-k (v-mu)^2) with k<=4, polynomials of degree <= 3, on intervals of width 0.5..1.5 "
+               "(and of widths down to one ulp, and at offsets up to 1e9, in one dimension, with the rounding of the abscissae 3*2^-53 max|x| sup|g'| |b-a| added to the slack); for Gauss-Legendre_2 with an explicit number n >= 48 of points also "
+               "sharply peaked Gaussians whose classical n-point Gauss error bound on the Bernstein ellipse is below 1e-11 of the integral (for which the default 30 points are not enough)",
+               "a user function defined through an inner integral is expected within (accuracy of the inner method) * (integral of |inner integrand|) * (outer width) in addition; under an adaptive outer method the inner method is one that is accurate to rounding on the smooth families",
+               "sharply peaked integrands under Gauss-Kronrod with explicit recursion depths 1..15 carry no accuracy claim; they are compared bit for bit with the direct nested call of boost's gauss_kronrod with the same depth"]
 
 BOOST = ("Trapezoidal", "Gauss-Legendre", "Gauss-Kronrod", "Tanh-Sinh")
 OWN = ("Gauss-Legendre_2", "Adaptive-Simpson")
@@ -108,6 +118,11 @@ class Fac:
         if want_sign: return s * h / 3, (min(vals) >= 0.0 or max(vals) <= 0.0)
         return s * h / 3
 
+    def dsup(self, a, b):
+        """an upper estimate of sup |g'| between the limits (257 samples, 5 per cent margin)"""
+        lo, hi = min(a, b), max(a, b); n = 256; h = (hi - lo) / n
+        return 1.05 * max(abs(self.dg(lo + k * h)) for k in range(n + 1))
+
     def R2(self, t):
         """antiderivative of t^2 g(t) (radial families only)"""
         n, p = self.name, self.p
@@ -121,7 +136,10 @@ class Fac:
         if n == "mono": k = int(p[1]); return p[0] * t ** (k + 3) / (k + 3)
         raise ValueError("no radial antiderivative for " + n)
 
-    def integral(self, a, b): return self.G(b) - self.G(a)
+    def integral(self, a, b):
+        if abs(b - a) <= 1e-3:        # narrow interval: the difference of antiderivatives cancels; Simpson's rule is exact to rounding there (error w^5 g^(4)/2880)
+            return (b - a) * (self.g(a) + 4.0 * self.g(0.5 * (a + b)) + self.g(b)) / 6.0
+        return self.G(b) - self.G(a)
 
     def l1(self, a, b):
         """integral of |g| between the limits (composite Simpson, 256 panels): the natural scale of the factor"""
@@ -197,11 +215,23 @@ def inner_of(fex):
     k = t.index("@"); return t[k + 1], int(t[k + 2])
 
 
+FIXED_RULES = ("Gauss-Legendre", "Gauss-Legendre_2")
+ROUNDING_ACCURATE = ("Gauss-Legendre", "Gauss-Legendre_2", "Gauss-Kronrod")     # on the smooth families: error near rounding, far below 1e-9
+
+
+def inner_ok(outer, inner):
+    """an adaptive outer method (tolerance 1e-9 .. 1e-8 of the integral) needs an integrand that is smooth below that tolerance: under it the
+    inner integral is computed by a rule that is accurate to rounding on the smooth families; under a fixed outer rule any inner method"""
+    return outer is None or outer in FIXED_RULES or inner in ROUNDING_ACCURATE
+
+
 def pick_inner(rng, f, x0, lo, hi, outer_method=None, cheap=False):
     """an inner method and parameter for the factor f written as f(x0) + integral_{x0}^{v} f'; Adaptive-Simpson only where f' keeps one sign
     (its tolerance is relative to the Simpson estimate of the integral itself)"""
     _, onesign = f.dl1(min(x0, lo, hi), max(x0, lo, hi), want_sign=True)
-    ms = [m for m in METHODS if (m != "Adaptive-Simpson" or onesign) and not (cheap and m in ("Tanh-Sinh", "Trapezoidal"))]
+    ms = [m for m in METHODS if (m != "Adaptive-Simpson" or onesign) and not (cheap and m in ("Tanh-Sinh", "Trapezoidal")) and inner_ok(outer_method, m)]
+    if cheap and outer_method not in FIXED_RULES and outer_method != "Gauss-Kronrod":
+        ms = [m for m in ms if m != "Gauss-Legendre_2"]        # thousands of user-function calls, each of which would rebuild the rule
     im = rng.choice(ms)
     if im == "Gauss-Legendre_2": ip = rng.choice([0, 20, 24, 31, 40])
     elif im == "Gauss-Kronrod": ip = rng.choice([0, 8, 15])
@@ -324,6 +354,7 @@ def generate(rng, tier):
                 if not orr: r1, r2 = r2, r1
                 full = o in (0, 7) or rng.random() < 0.2
                 if method in ("Tanh-Sinh", "Trapezoidal", "Gauss-Kronrod") and o not in (0, 2, 5, 7) and not big: continue
+                if method == "Trapezoidal" and o not in (0, 5) and not big: continue            # about 1 s each
                 p = P(method, rng.random() < 0.5)
                 if method == "Gauss-Legendre_2" and p > 31: p = 24
                 radial = full or method in ("Trapezoidal", "Adaptive-Simpson") or rng.random() < 0.4
@@ -348,9 +379,47 @@ def generate(rng, tier):
                     txt = f"+ * c {hx(co[0])} x + * c {hx(co[1])} y + * c {hx(co[2])} z c {hx(co[3])}"
                     cs.append(Case(f"spherical {method} {p} {hx(r1)} {hx(r2)} {hx(c1)} {hx(c2)} {hx(f1)} {hx(f2)} {txt} # sphd " + " ".join(hx(x) for x in co),
                                    ("spherical", method, "sub", "directional")))
+    cs += gen_narrow(rng, big, P)
     cs += gen_reentrant(rng, big, P)
     cs += gen_ties(rng, big, P)
     cs += gen_sharp(rng, big)
+    return cs
+
+
+# ---- 1-D limits that are distinct but nearly equal (a geometric ladder of relative distances from one ulp to 1e-4, both orientations), and
+#      intervals of ordinary width far from the origin (|a| >> |b - a|)
+def narrow_rel(lim):
+    a, b = lim[0], lim[1]
+    m = max(abs(a), abs(b))
+    return abs(b - a) / m if m > 0 else math.inf
+
+
+def tanh_sinh_narrow(op, method, lim):
+    """the region of known finding K-C13-1: Tanh-Sinh on a 1-D interval whose width is below 1e-6 of the magnitude of its limits"""
+    return op == "named1d" and method == "Tanh-Sinh" and lim[0] != lim[1] and narrow_rel(lim) <= 1e-6
+
+
+def gen_narrow(rng, big, P):
+    cs = []
+    steps = ["ulp", "4ulp", 1e-15, 1e-14, 1e-13, 1e-12, 1e-11, 1e-10, 1e-9, 1e-8, 1e-7, 1e-6, 1e-5, 1e-4]
+    for method in METHODS:
+        for step in (steps if big else rng.sample(steps[:4], 1) + rng.sample(steps[4:9], 1) + rng.sample(steps[9:], 2)):
+            a = rng.choice([1.5, -2.25, rng.uniform(0.3, 5.0), -rng.uniform(0.3, 5.0)])
+            sg = rng.choice([-1.0, 1.0])
+            if step == "ulp": b = math.nextafter(a, sg * math.inf)
+            elif step == "4ulp":
+                b = a
+                for _ in range(4): b = math.nextafter(b, sg * math.inf)
+            else: b = a * (1.0 + sg * step * rng.uniform(1.0, 3.0))
+            f = rng.choice([Fac("expdec", rng.uniform(0.2, 1.5)), Fac("rational", rng.uniform(0.1, 2.0)), Fac("gauss", rng.uniform(0.5, 4.0), a + rng.uniform(-0.5, 0.5)),
+                            Fac("dampcos", rng.uniform(0.2, 1.5), rng.uniform(0.2, 0.9) / abs(a))])
+            p = P(method, rng.random() < 0.3)
+            cs.append(Case(f"named1d {method} {p} {hx(a)} {hx(b)} {f.text('x')} # 1d {f.ann()}", ("named1d", method, "near-equal-limits")))
+        for off in ((1e3, 1e4, 1e5, 1e6, 1e7, 1e9) if big else (rng.choice([1e3, 1e4]), rng.choice([1e5, 1e6, 1e7]))):
+            a = off * rng.uniform(1.0, 8.0) * rng.choice([-1, 1]); b = a + rng.uniform(0.5, 1.5) * rng.choice([-1, 1])
+            f = Fac("gauss", rng.uniform(0.5, 4.0), a + rng.uniform(-0.3, 1.3) * (b - a))
+            p = P(method, rng.random() < 0.3)
+            cs.append(Case(f"named1d {method} {p} {hx(a)} {hx(b)} {f.text('x')} # 1d {f.ann()}", ("named1d", method, "far-from-origin")))
     return cs
 
 
@@ -377,6 +446,7 @@ def gen_reentrant(rng, big, P):
     for rep in range(3 if big else 1):
         for method in METHODS:
             for im in METHODS:
+                if not inner_ok(method, im): continue
                 for _ in range(20):
                     a, b = limits(rng, rng.randrange(3), rng.random() < 0.6)
                     if rng.random() < 0.3: a, b = a - 3.0, b - 3.0
@@ -400,29 +470,33 @@ def gen_reentrant(rng, big, P):
         f = rand_fac(rng, a, b); re = (0, anchor(a, b, "Gauss-Kronrod", "Gauss-Kronrod"), "Gauss-Kronrod", ip)
         cs.append(Case(f"named1d Gauss-Kronrod {p} {hx(a)} {hx(b)} {product_text([f], 'x', re)} # 1d@ {re_ann(re)} {f.ann()}", ("named1d", "reentrant", "Gauss-Kronrod", "inner-Gauss-Kronrod", "points-differ")))
     # 2-D / 3-D: one factor (any position) written through an integral
+    pick3 = rng.choice(["Gauss-Legendre", "Gauss-Kronrod"])          # quick tier: one of the two 30^3-evaluation rules per run in 3-D
     for rep in range(4 if big else 1):
         for method in METHODS:
             for dd in (2, 3):
-                if dd == 3 and method in ("Tanh-Sinh", "Trapezoidal") and not big: continue
+                if dd == 3 and not big and (method in ("Tanh-Sinh", "Trapezoidal") or (method in ("Gauss-Legendre", "Gauss-Kronrod") and method != pick3)): continue
                 for _ in range(2 if dd == 2 else 1):
                     lims = [limits(rng, k, rng.random() < 0.6) for k in range(dd)]
-                    facs = [fac_for(method, *lims[k]) if method != "Trapezoidal" else rand_fac(rng, *lims[k], affine=True) for k in range(dd)]
+                    if method == "Trapezoidal": facs = [rand_fac(rng, *lims[k], affine=True) for k in range(dd)]
+                    elif method == "Adaptive-Simpson" and dd == 3: facs = [rand_fac(rng, *lims[k], poly=True) for k in range(dd)]
+                    else: facs = [fac_for(method, *lims[k]) for k in range(dd)]
                     k = rng.randrange(dd); x0 = anchor(*lims[k], method, "Tanh-Sinh")
-                    im, ip = pick_inner(rng, facs[k], x0, *lims[k], cheap=(dd == 3))
-                    if method == "Gauss-Legendre_2" and rng.random() < 0.7: im, ip = "Gauss-Legendre_2", rng.choice([20, 24, 31, 40])
+                    im, ip = pick_inner(rng, facs[k], x0, *lims[k], outer_method=method, cheap=True)
+                    if method == "Gauss-Legendre_2" and rng.random() < 0.7: im, ip = "Gauss-Legendre_2", rng.choice([20, 24, 31, 40] if dd == 2 else [20, 24])
+                    if dd == 3 and im == "Gauss-Legendre_2" and method not in ("Gauss-Legendre_2", "Adaptive-Simpson"): im, ip = "Gauss-Kronrod", rng.choice([0, 8])
                     if im != "Tanh-Sinh" and method != "Tanh-Sinh" and rng.random() < 0.4:
                         lo_, hi_ = min(lims[k]), max(lims[k])
                         x1 = rng.choice([lo_, hi_] + ([0.5 * (lo_ + hi_)] if method != "Trapezoidal" else []))
                         if im != "Adaptive-Simpson" or facs[k].dl1(min(x1, lo_), max(x1, hi_), want_sign=True)[1]: x0 = x1
                     p = P(method, rng.random() < 0.5)
-                    if method == "Gauss-Legendre_2" and p > 31 and dd == 3: p = 24
+                    if method == "Gauss-Legendre_2" and dd == 3 and (p > 31 or not big): p = rng.choice([20, 24])
                     re = (k, x0, im, ip)
                     flat = " ".join(hx(x) for lm in lims for x in lm)
                     cs.append(Case(f"nested{dd}d {method} {p} {flat} {product_text(facs, 'xyz'[:dd], re)} # nd@ {re_ann(re)} " + " ".join(f.ann() for f in facs),
                                    (f"nested{dd}d", "reentrant", method, "inner-" + im)))
     # spherical: the radial profile written through an integral up to the norm of the vector
     for method in METHODS:
-        if method in ("Tanh-Sinh", "Trapezoidal") and not big: continue
+        if not big and (method in ("Tanh-Sinh", "Trapezoidal") or (method in ("Gauss-Legendre", "Gauss-Kronrod") and method == pick3)): continue
         for _ in range(3 if big else 1):
             r1 = rng.uniform(0.1, 1.0); r2 = r1 + rng.uniform(0.5, 1.5)
             if rng.random() < 0.4: r1, r2 = r2, r1
@@ -431,10 +505,11 @@ def gen_reentrant(rng, big, P):
             if rng.random() < 0.5: f1, f2 = f2, f1
             g = rng.choice([Fac("expdec", rng.uniform(0.3, 1.5)), Fac("rational", rng.uniform(0.1, 2.0)), Fac("gauss", rng.uniform(0.5, 3.0), 0.0)])
             x0 = max(anchor(r1, r2, method, "Tanh-Sinh", exact_var=False), 0.0)
-            im, ip = pick_inner(rng, g, x0, r1, r2, cheap=True)
-            if method == "Gauss-Legendre_2": im, ip = "Gauss-Legendre_2", rng.choice([20, 40])
+            im, ip = pick_inner(rng, g, x0, r1, r2, outer_method=method, cheap=True)
+            if method == "Gauss-Legendre_2": im, ip = "Gauss-Legendre_2", rng.choice([22, 40] if big else [22])
+            elif im == "Gauss-Legendre_2" and method != "Adaptive-Simpson": im, ip = "Gauss-Kronrod", rng.choice([0, 8])
             p = P(method, rng.random() < 0.5)
-            if method == "Gauss-Legendre_2" and p > 31: p = 24
+            if method == "Gauss-Legendre_2" and (p > 31 or not big): p = rng.choice([20, 24])
             re = (x0, im, ip)
             cs.append(Case(f"spherical {method} {p} {hx(r1)} {hx(r2)} {hx(c1)} {hx(c2)} {hx(f1)} {hx(f2)} {radial_text(g, re)} # sphr@ 0 {im} {ip} {hx(x0)} {g.ann()}",
                            ("spherical", "reentrant", method, "inner-" + im)))
@@ -457,9 +532,9 @@ def gen_ties(rng, big, P):
     count = 0
     for dd in (2, 3):
         pairs = [(i, j) for i in range(2 * dd) for j in range(2 * dd) if i // 2 != j // 2]        # ordered: j is moved onto i
-        if not big: pairs = [(i, j) for (i, j) in pairs if i < j] if dd == 2 else pairs
         for (i, j) in pairs:
-            for step in (ladder if big else [rng.choice(ladder)]):
+            # quick tier: every unordered pair once as an exact tie, once at a distance from the ladder
+            for step in (ladder if big else [0.0] if i < j else [rng.choice(ladder[3:])]):
                 count += 1
                 method = METHODS[count % len(METHODS)]
                 if dd == 3 and method in ("Tanh-Sinh", "Trapezoidal") and not big: method = rng.choice(["Gauss-Legendre", "Gauss-Kronrod", "Gauss-Legendre_2"])
@@ -469,6 +544,7 @@ def gen_ties(rng, big, P):
                 other = lims[j // 2][1 - j % 2] + shift
                 lims[j // 2][j % 2] = target; lims[j // 2][1 - j % 2] = other
                 if method == "Trapezoidal": facs = [rand_fac(rng, *lims[k], affine=True) for k in range(dd)]
+                elif method == "Adaptive-Simpson" and dd == 3: facs = [rand_fac(rng, *lims[k], poly=True) for k in range(dd)]
                 else: facs = [rand_fac(rng, *lims[k], positive=(method == "Adaptive-Simpson")) for k in range(dd)]
                 p = P(method, rng.random() < 0.4)
                 if method == "Gauss-Legendre_2" and p > 31 and dd == 3: p = 24
@@ -479,8 +555,8 @@ def gen_ties(rng, big, P):
     rng_of = [(0.1, 2.5), (-1.0, 1.0), (0.0, 2 * math.pi)]
     for i in range(6):
         for j in range(6):
-            if i // 2 == j // 2 or (not big and rng.random() < 0.5): continue
-            for step in (ladder if big else [rng.choice(ladder)]):
+            if i // 2 == j // 2 or (not big and i > j and rng.random() < 0.7): continue
+            for step in (ladder if big else [0.0] if i < j else [rng.choice(ladder[3:])]):
                 count += 1
                 method = METHODS[count % len(METHODS)]
                 if method in ("Tanh-Sinh", "Trapezoidal") and not big: method = rng.choice(["Gauss-Legendre", "Gauss-Kronrod", "Gauss-Legendre_2", "Adaptive-Simpson"])
@@ -560,11 +636,10 @@ def gen_sharp(rng, big):
     for _ in range(reps):
         # Gauss-Legendre_2 with enough points for the peak (accuracy claim applies), every entry point, the peak on any axis
         for n in (64, 96, 48) if not big else (48, 64, 96, 128):
-            K = rng.uniform(0.6, 1.0) * gl_kmax(n)
+            K = rng.uniform(0.8, 1.0) * gl_kmax(n)
             for op in ("named1d", "nested2d", "nested3d", "spherical"):
-                if op == "nested3d" and n > 64 and not big: continue
+                if dims(op) == 3 and n > (48 if not big else 64): continue            # n^3 evaluations
                 if op == "spherical":
-                    if n == 48 and not big: continue
                     r1 = rng.uniform(0.3, 0.8); r2 = r1 + rng.uniform(0.6, 1.2)
                     g = sharp_fac(r1, r2, K)
                     if rng.random() < 0.5: r1, r2 = r2, r1
@@ -588,6 +663,8 @@ def gen_sharp(rng, big):
             K = math.exp(rng.uniform(math.log(150.0), math.log(3000.0)))
             for op in ("named1d", "nested2d", "spherical") + (("nested3d",) if big else ()):
                 if op == "spherical":
+                    if p in (3, 8, 15) and not big: continue
+                    K = min(K, 600.0)
                     r1 = rng.uniform(0.3, 0.8); r2 = r1 + rng.uniform(0.6, 1.2)
                     g = sharp_fac(r1, r2, K)
                     if rng.random() < 0.5: r1, r2 = r2, r1
@@ -643,10 +720,15 @@ def exact_and_scale(op, lim, fex, ann):
             a, b = lim[2 * k], lim[2 * k + 1]
             ex *= f.integral(a, b); sc *= f.l1(a, b)
         extra = 0.0
+        if len(facs) == 1:
+            # the abscissae are doubles: a node near x is off by up to ulp(x)/2 from the exact node (and is formed with two or three roundings), which moves
+            # the integrand by |g'| ulp(x); only visible far from the origin
+            a, b = lim
+            extra = 3 * 2.0 ** -53 * max(abs(a), abs(b)) * facs[0].dsup(a, b) * abs(b - a)
         if re:
             k, x0, im, ip = re
             a, b = lim[2 * k], lim[2 * k + 1]
-            extra = acc_of(im) * facs[k].dl1(min(x0, a, b), max(x0, a, b)) * abs(b - a)
+            extra += acc_of(im) * facs[k].dl1(min(x0, a, b), max(x0, a, b)) * abs(b - a)
             for j, f in enumerate(facs):
                 if j != k: extra *= f.l1(lim[2 * j], lim[2 * j + 1])
         return ex, sc, extra
@@ -682,6 +764,11 @@ def dims(op): return {"named1d": 1, "nested2d": 2, "nested3d": 3, "spherical": 3
 def compare(c, io, mo, tol):
     if io == mo: return True, True, ""
     a, b = io.split(), mo.split()
+    if io.startswith("CRASH") or (a and tokf(a[0]) is not None):
+        op, method, p, lim, fex, ann = parse_case(c.line)
+        # the boost back ends are not modelled (stand-in rule); where Tanh-Sinh is known to abort or to lose accuracy (K-C13-1, reported by the
+        # predicates on the implementation's output) the stand-in has nothing to be compared with
+        if tanh_sinh_narrow(op, method, lim) and b and tokf(b[0]) is not None: return True, False, ""
     if not a or not b or tokf(a[0]) is None or tokf(b[0]) is None:
         return False, False, f"impl {io[:60]} model {mo[:60]}"
     op, method, p, lim, fex, ann = parse_case(c.line)
@@ -713,8 +800,12 @@ def compare(c, io, mo, tol):
 # ---------------------------------------------------------------- S4
 def predicates(c, io):
     out = []
-    if io.startswith(("CRASH", "SANITIZER", "TIMEOUT", "HARNESSERR")): return out
     op, method, p, lim, fex, ann = parse_case(c.line)
+    if io.startswith("CRASH"):
+        # (the generic report of tools/vcheck.py is replaced by this one, ALLOW_CRASH, so that the known abort has a signature of its own)
+        region = ":tanh-sinh-narrow-interval" if tanh_sinh_narrow(op, method, lim) else ""
+        out.append(((f"{op}:crash" + region) if region else f"CRASH:{op}", f"the implementation ended with {io} on this request")); return out
+    if io.startswith(("SANITIZER", "TIMEOUT", "HARNESSERR")): return out
     d = dims(op)
     equal = [lim[2 * k] == lim[2 * k + 1] for k in range(d)]
     # the method name is validated before the limits are looked at (1-D and front ends alike)
@@ -768,7 +859,7 @@ def predicates(c, io):
         # accuracy of the inner method when the user's function is itself computed by a quadrature
         slack = d * acc_of(method) * sc + 1e-13 * sc + extra
         if not (abs(val - ex) <= slack):
-            out.append((f"{op}:value", f"{method}: result {val!r}, exact integral {ex!r} (difference {abs(val-ex):.3g} > {slack:.3g})"))
+            out.append((f"{op}:value" + (":tanh-sinh-narrow-interval" if tanh_sinh_narrow(op, method, lim) else ""), f"{method}: result {val!r}, exact integral {ex!r} (difference {abs(val-ex):.3g} > {slack:.3g})"))
     return out
 
 
